@@ -392,6 +392,7 @@ def norm(s):
 
 def f32_5(v):
     """5 decimals of the single-precision value of np.round(v, 5)"""
+    v = np.float64(v) if isinstance(v, (bool, np.bool_, np.float16)) else v    # written as the number 0/1; half precision rounded in single
     return round(float(np.float32(np.round(v, 5))), 5)
 
 
